@@ -1,7 +1,7 @@
 (* Props/C19.v -- real_to_complex is the exact analytic-baseband conversion. *)
 From Coq Require Import ZArith Reals.
 From Coquelicot Require Import Complex.
-From PB Require Import Lib.Dft Lib.DftC Model.Hilbert Proofs.HilbertProofs Proofs.HilbertC.
+From PB Require Import Lib.Dft Lib.DftC Model.Hilbert Proofs.HilbertProofs Proofs.HilbertC Proofs.HilbertTone.
 
 (* the Hilbert weights, as the code assigns them, pair up to 2 for EVERY N >= 1 (DC / Nyquist, both parities) *)
 Theorem C19_weights : forall N k, (1 <= N)%Z -> (0 <= k < N)%Z -> (h N k + h N ((N - k) mod N) = 2)%Z.
@@ -19,10 +19,24 @@ Theorem C19_mix : forall m, cpow (Copp Ci) (2 * m) = RtoC ((-1) ^ m).
 Proof. exact mix_even. Qed.
 Theorem C19_dtype : out_dtype true false = Some 0%Z /\ out_dtype false false = Some 1%Z /\ forall b, out_dtype b true = None.
 Proof. repeat split; reflexivity. Qed.
-(* linearity (abstract carrier): Proofs/HilbertProofs.analytic_linear; tone w -> w - N/4 and axis independence are
-   checked against the code by the correspondence run. *)
+(* the whole conversion over C (rtcC n x m := analytic signal of x at 2m, times (-i)^(2m)), every n >= 1: it is linear; the analytic
+   signal of the REAL tone cos(2 pi w j / n), 0 < 2w < n, is the complex tone exp(2 pi i w j / n) (negative frequency removed);
+   and the conversion maps it to exp(2 pi i (w - n/4)(2m)/n): a tone at w - n/4 cycles per n samples *)
+Theorem C19_linear : forall (n : nat), (0 < n)%nat -> forall a x b y m,
+  rtcC n (fun j => Cplus (Cmult a (x j)) (Cmult b (y j))) m = Cplus (Cmult a (rtcC n x m)) (Cmult b (rtcC n y m)).
+Proof. exact rtc_linear_C. Qed.
+Theorem C19_analytic_tone : forall (n : nat), (0 < n)%nat -> forall (w m : nat), (0 < w)%nat -> (2 * w < n)%nat ->
+  analyticC n (real_tone n w) m = tone C (W n) w m.
+Proof. exact analytic_real_tone. Qed.
+Theorem C19_tone : forall (n : nat), (0 < n)%nat -> forall (w m : nat), (0 < w)%nat -> (2 * w < n)%nat ->
+  rtcC n (real_tone n w) m =
+  (cos (2 * PI * ((INR w - INR n / 4) * INR (2 * m)) / INR n), sin (2 * PI * ((INR w - INR n / 4) * INR (2 * m)) / INR n)).
+Proof. exact rtc_real_tone. Qed.
+(* axis independence and scipy.fft = this DFT are checked against the code by the correspondence run. *)
 
 Print Assumptions C19_weights.
 Print Assumptions C19_len.
 Print Assumptions C19_real.
 Print Assumptions C19_mix.
+Print Assumptions C19_tone.
+Print Assumptions C19_linear.
